@@ -868,8 +868,37 @@ func (r *RigR) checkDrops(delivered map[string]map[int64]*srcRef, stopped map[in
 			s.Probe("multi_shard_barrier_fired")
 		}
 	}
+	// a collection dropped at the source while the service was down (the catalog lists it as dropped, it still exists
+	// downstream): its drop is owed exactly once after the start
+	for _, c := range sc.Colls {
+		if c.State != "dropped" || !c.Pre || stopped[c.ID] || errEvent {
+			continue
+		}
+		if st := r.opState("start", c.ID); st == nil || !st.done || st.err != nil {
+			continue
+		}
+		registered := 0
+		for _, v := range c.SrcV {
+			for _, st := range r.mq.All {
+				if st.VCh == v {
+					registered++
+					break
+				}
+			}
+		}
+		if registered < len(c.SrcV) {
+			continue // a stream could not be opened (injected refusal): nothing can be demanded
+		}
+		s.Probe("dropped_while_down_collection")
+		if len(dropEvents[key{c.ID, 0}]) == 0 {
+			s.Violate("C04", "drop_missing", "collection %d was dropped at the source while the service was down (it still exists downstream, the catalog lists it as dropped), but no drop request was issued within the drain budget", c.ID)
+		}
+	}
 	// stop never produces a drop
 	for coll := range stopped {
+		if c := sc.coll(coll); c != nil && c.State == "dropped" {
+			continue // dropped before the run: its drop is owed from the start, whether or not the collection is stopped later
+		}
 		if d := drops[key{coll, 0}]; d == nil {
 			if len(dropEvents[key{coll, 0}]) > 0 {
 				s.Violate("C04", "drop_on_stop", "stopping collection %d produced a drop request", coll)
